@@ -21,6 +21,11 @@
       statement of the same transaction already holds locked and no consistent read preceded that lock (REPEATABLE READ: a plain
       SELECT is answered from the read view created by the transaction's first plain SELECT, so it does not see a
       deactivate_instance that committed meanwhile)
+  R9  settlement of the pool scheduler's in-memory reservation (taken before schedule_job, undone in an `except` handler around it): the undo handler
+      catches every Exception; schedule_job (module-level helpers inlined) reaches no escaping `raise` once CALL schedule_job has returned - the
+      procedure records the attempt unconditionally before it decides on rc, so an exception there makes the handler return cores a live attempt
+      holds and mark_job_complete returns them again; schedule_job returns normally only on paths through the CALL (otherwise neither
+      delta_cores_mcpu nor the handler ever settles the reservation).  Awaited calls after the CALL are declined, not judged.
 Not decided: histories as such.
 """
 from __future__ import annotations
@@ -42,7 +47,7 @@ META = dict(
     text='Acquire/release pairing obligations decided on every writer of the free-core column in the effective SQL program, with the guards that make '
          'each of them happen at most once per attempt, plus the Python in-memory mirror. Static because each obligation is a dominance/ordering fact in the routine text.',
     note='Trusted: SQL parser, migration replay; MySQL ROW_COUNT() = 1 iff the INSERT..ON DUPLICATE KEY UPDATE inserted a new row; InnoDB REPEATABLE READ (plain SELECT = consistent read from the view created by the first plain SELECT; locking reads / UPDATE see and lock the latest row until COMMIT). The inductive argument over histories is not decided; a plain guard read that is not provably stale is declined, not judged.',
-    technique='static analysis: closed-world writer scan + guard dominance and statement ordering in stored routines + lock-clause / read-view ordering facts over linearised transactions (CALLs inlined) + CFG checks on Python callers with helpers inlined',
+    technique='static analysis: closed-world writer scan + guard dominance and statement ordering in stored routines + lock-clause / read-view ordering facts over linearised transactions (CALLs inlined) + CFG checks on Python callers with helpers inlined (reachability of escaping raises after the committed CALL, must-pass-through of the CALL before a normal return)',
     design_ref='DESIGN.md §3 C10',
 )
 
@@ -354,6 +359,153 @@ def r8(ctx: Ctx, jobm: pf.Module, poolm: pf.Module, neg: list, pos: list, procs_
                   + ('a loaded instance does not start from the recorded counter' if 'record' in q else 'a new instance does not start with all cores free'), im.path, calls[0].lineno)
 
 
+JOB_PY = 'batch/batch/driver/job.py'
+RESERVING = ('batch/batch/driver/instance_collection/pool.py', 'batch/batch/driver/instance_collection/job_private.py')
+
+
+def _catches_exception(h: ast.ExceptHandler) -> bool:
+    ts = [h.type] if not isinstance(h.type, ast.Tuple) else list(h.type.elts)
+    return h.type is None or any(isinstance(t, ast.Name) and t.id in ('Exception', 'BaseException') for t in ts)
+
+
+def r9(ctx: Ctx, prog: sf.SqlProgram, m: pf.Module, procs_with_delta: Set[str]) -> None:
+    """Settlement of the scheduler's in-memory reservation.  The pool scheduler takes the job's cores from the in-memory copy BEFORE it calls
+    schedule_job and gives them back in an `except` handler around that call.  The stored procedure schedule_job records the attempt (add_attempt) before
+    it decides on rc and reports through delta_cores_mcpu how the in-memory copy has to move so that reservation and database agree; it has committed when
+    the CALL returns.  Hence:  (a) the undo handler must catch every Exception;  (b) once the CALL has returned normally, schedule_job (helpers inlined) must
+    not raise - the handler would return cores that a live attempt holds, and mark_job_complete returns them a second time;  (c) schedule_job must not return
+    normally without having made the CALL - nobody would ever settle the reservation.  Exception sources considered: `raise` statements and awaited calls
+    (a fault can fail any of them); awaited calls after the CALL are not judged but declined."""
+    # ---- (a) the callers that hold a reservation across schedule_job ---------------------------------------------------------------------------------
+    n_undo = 0
+    for rel in RESERVING:
+        mod = pf.load(rel)
+        for tr in ast.walk(mod.tree):
+            if not (isinstance(tr, ast.Try) and any(isinstance(x, ast.Call) and pf.dotted(x.func) == 'schedule_job' for b in tr.body for x in ast.walk(b))):
+                continue
+            fn = mod.enclosing_func(tr)
+            q = mod.qualname(fn) if fn is not None else '<module>'
+            undo = [h for h in tr.handlers if any(isinstance(c, ast.Call) and isinstance(c.func, ast.Attribute) and c.func.attr == 'adjust_free_cores_in_memory' for c in ast.walk(h))]
+            fin = [c for b in tr.finalbody for c in ast.walk(b) if isinstance(c, ast.Call) and isinstance(c.func, ast.Attribute) and c.func.attr == 'adjust_free_cores_in_memory']
+            if fin:
+                ctx.bad('R9', f'{rel}::{q}::reservation undone on failure only', 'the in-memory reservation is given back in a `finally` clause, i.e. also when schedule_job succeeded and the attempt holds the cores',
+                        mod.path, tr.lineno)
+            for h in undo:
+                n_undo += 1
+                ctx.check(_catches_exception(h), 'R9', f'{rel}::{q}::undo handler catches every Exception', f'the handler that gives the reserved cores back only catches `{pf.nsrc(h.type) if h.type is not None else ""}`: '
+                          'any other exception out of schedule_job (a database error, a timeout) leaves the in-memory free cores reduced by the job\'s cores although no attempt was placed', mod.path, h.lineno)
+    if n_undo == 0:
+        ctx.info('R9: no caller of schedule_job undoes an in-memory reservation in an except handler (R6 reports a missing undo)')
+    # ---- schedule_job itself -----------------------------------------------------------------------------------------------------------------------
+    toplevel = {f.name: f for f in m.tree.body if isinstance(f, (ast.FunctionDef, ast.AsyncFunctionDef))}
+    ctx.need('schedule_job' in toplevel, f'{JOB_PY}::schedule_job not found')
+    fn0 = toplevel['schedule_job']
+
+    def _the_call(mod: pf.Module, fn: pf.FuncDef) -> ast.Call:
+        cs = []
+        for c in ast.walk(fn):
+            if isinstance(c, ast.Call) and isinstance(c.func, ast.Attribute) and c.func.attr in sf.EXEC_METHODS and c.args:
+                sql = (pf.const_str(c.args[0]) or '').strip()
+                if sql.upper().startswith('CALL ') and sql[5:].split('(')[0].strip() in procs_with_delta:
+                    cs.append(c)
+        ctx.need(len(cs) == 1, f'{JOB_PY}::schedule_job: expected exactly one CALL of a procedure returning delta_cores_mcpu, found {len(cs)}')
+        return cs[0]
+
+    def _normal(a, b, lab):
+        return lab != 'exc'
+
+    g0 = pf.cfg(fn0)
+    cn0 = g0.node_of(_the_call(m, fn0))
+    ctx.need(len(cn0) == 1, f'{JOB_PY}::schedule_job: CFG node of the CALL not found')
+    after0 = g0.reachable_from(cn0[0], edge_ok=_normal)
+    wanted: Set[str] = set()
+    for n in g0.nodes:
+        if n.id in after0 and n is not cn0[0]:
+            for x in pf.node_exprs(n):
+                wanted |= {c.func.id for c in ast.walk(x) if isinstance(c, ast.Call) and isinstance(c.func, ast.Name) and c.func.id in toplevel}
+    changed = True
+    while changed:
+        changed = False
+        for nm in list(wanted):
+            for c in ast.walk(toplevel[nm]):
+                if isinstance(c, ast.Call) and isinstance(c.func, ast.Name) and c.func.id in toplevel and c.func.id not in wanted and c.func.id != 'schedule_job':
+                    wanted.add(c.func.id)
+                    changed = True
+    if wanted:
+        m2, il = inline.inline_functions(_hoist_test_calls(m, 'schedule_job', wanted), 'schedule_job', exclude=tuple(n_ for n_ in toplevel if n_ not in wanted))
+        fn = m2.func('schedule_job')
+        mod2 = m2
+    else:
+        fn, mod2, il = fn0, m, None
+    g = pf.cfg(fn)
+    cn = g.node_of(_the_call(mod2, fn))
+    ctx.need(len(cn) == 1, f'{JOB_PY}::schedule_job: CFG node of the CALL not found after inlining')
+    call_node = cn[0]
+    after = g.reachable_from(call_node, edge_ok=_normal)
+    par = mod2.parents()
+
+    def escapes(n, seen: Set[int]) -> bool:
+        """an exception raised at n leaves the function."""
+        if n.id in seen:
+            return False
+        seen.add(n.id)
+        for t, lab in n.succ:
+            if lab != 'exc':
+                continue
+            if t is g.raise_exit:
+                return True
+            for x in g.nodes:
+                if x.id in g.reachable_from(t, edge_ok=_normal) and x.kind == 'raise' and escapes(x, seen):
+                    return True
+        return False
+
+    def swallowed(node_ast: ast.AST) -> bool:
+        cur = par.get(node_ast)
+        child = node_ast
+        while cur is not None and cur is not fn:
+            if isinstance(cur, ast.Try) and child in cur.body and any(_catches_exception(h) and not any(isinstance(r_, ast.Raise) for r_ in ast.walk(h)) for h in cur.handlers):
+                return True
+            child, cur = cur, par.get(cur)
+        return False
+
+    raises = [n for n in g.nodes if n.id in after and n.kind == 'raise' and escapes(n, set())]
+    cons = f'{JOB_PY}::schedule_job'
+    proc = (pf.const_str(_the_call(mod2, fn).args[0]) or '').strip()[5:].split('(')[0].strip()
+    # what the procedure has done when it answers: the attempt is recorded (CALL add_attempt) on EVERY path, whatever rc it then reports
+    acq = [(st, guard) for st, guard in sf.guarded_statements(prog.routine(proc).ast.body) if st.kind == 'call' and st.name.lower() == 'add_attempt']
+    ctx.need(acq, f'sql::{proc}: CALL add_attempt not found')
+    if raises and not all(guard == () for _, guard in acq):
+        raise AnalysisError(f'R9 {cons}: `{pf.nsrc(raises[0].ast)[:60]}` follows CALL {proc}, and {proc} records the attempt only under {[text(c) for c, _ in acq[0][1]]}: whether the raise is '
+                            'confined to answers without an attempt is not decided')
+    ctx.check(not raises, 'R9', cons + f'::no exception after CALL {proc} returned',
+              (f'`{pf.nsrc(raises[0].ast)[:90]}` (line {raises[0].ast.lineno}) is reached after CALL {proc} has returned. ' if raises else '') +
+              f'The procedure has committed by then and calls add_attempt unconditionally, before it decides on rc (effective definition in {prog.routine(proc).file}): whatever rc says, the attempt holds the job\'s cores in the '
+              'database and delta_cores_mcpu has already reconciled the in-memory copy with the scheduler\'s reservation. The pool scheduler treats every exception out of schedule_job as "nothing was placed" and '
+              'adds the job\'s cores back in memory. History: job J (c mcpu) is selected as Ready; the worker accepts it; J\'s job group is cancelled; CALL schedule_job -> add_attempt (database free cores - c), '
+              'rc = 1; the exception makes the pool handler add c back: in-memory free = truth + c while J\'s attempt is live; when the worker reports J complete, mark_job_complete returns '
+              'delta_cores_mcpu = +c once more: the surplus of c stays for the life of the instance', m.path, raises[0].ast.lineno if raises else fn0.lineno,
+              detail={'helpers inlined': sorted({x for x, _ in il.inlined}) if il is not None else []})
+    undecided = []
+    for n in g.nodes:
+        if n.id not in after or n is call_node or n.ast is None:
+            continue
+        for x in pf.node_exprs(n):
+            for a in pf.walk_shallow(x):
+                if isinstance(a, ast.Await) and not swallowed(n.ast):
+                    undecided.append(f'line {getattr(a, "lineno", 0)}: `{pf.nsrc(a)[:70]}` is awaited after CALL {proc} returned; whether it can fail is not decided')
+                if isinstance(a, ast.Call) and isinstance(a.func, ast.Name) and a.func.id in toplevel and \
+                        any(isinstance(r_, (ast.Raise, ast.Await)) for r_ in ast.walk(toplevel[a.func.id])) and not swallowed(n.ast):
+                    undecided.append(f'line {getattr(a, "lineno", 0)}: helper `{a.func.id}` (contains raise / await) is called after CALL {proc} returned in a form that was not inlined')
+    # ---- (c) a normal return implies the CALL was made ---------------------------------------------------------------------------------------------
+    p = g.path_avoiding(g.entry, lambda n: n is g.exit, lambda n: n is call_node)
+    via = [x for x in (p or []) if x.ast is not None][-3:]
+    ctx.check(p is None, 'R9', cons + f'::returns normally only after CALL {proc}',
+              f'schedule_job can return normally without having called {proc} (path through ' + ', '.join(f'line {getattr(x.ast, "lineno", 0)} `{pf.nsrc(x.ast)[:50]}`' for x in via) +
+              '): the pool scheduler has already taken the job\'s cores from the in-memory copy; without the procedure\'s delta_cores_mcpu and without an exception for the undo handler nobody gives them back, '
+              'so the in-memory free cores stay below total - live attempts (e.g. a worker that answers 403/503 to jobs/create)', m.path, getattr(via[-1].ast, 'lineno', fn0.lineno) if via else fn0.lineno)
+    ctx.need(not undecided, 'R9 ' + cons + ': ' + ' | '.join(undecided[:4]))
+
+
 def _reachable(prog: sf.SqlProgram, r: sf.Routine, seen: Optional[Set[str]] = None) -> List[sf.Routine]:
     seen = seen if seen is not None else set()
     if r.name in seen:
@@ -378,6 +530,8 @@ def run(ctx: Ctx) -> None:
     ctx.rule('R6', 'Python mirror applies delta_cores_mcpu at every call site, to the instance named in the CALL, before acting on rc; optimistic decrement undone on failure', 16)
     ctx.rule('R8', 'closed world of the in-memory mirror: _free_cores_mcpu changes only at construction (= recorded value), deactivation (= total) and through adjust_free_cores_in_memory, '
              'which is called only with a procedure\'s delta or as the optimistic decrement / undo pair', 13)
+    ctx.rule('R9', 'the pool scheduler\'s in-memory reservation is settled exactly once: schedule_job raises only before CALL schedule_job has returned (undo handler catches every Exception) '
+             'and returns normally only after it (delta_cores_mcpu applied)', 3)
     ctx.rule('R7', 'every table read deciding a free-core decrement / increment is a locking read inside the transaction (or re-reads a row locked earlier, before the read view existed)', 8)
     prog = sf.load_program()
     ctx.unit('effective_routines', len(prog.routines))
@@ -656,5 +810,18 @@ def run(ctx: Ctx) -> None:
     # ---- R8 closed world of the in-memory mirror ----------------------------------------------------------
     r8(ctx, m, pm, neg, pos, procs_with_delta)
 
+    # ---- R9 settlement of the scheduler's in-memory reservation -----------------------------------------------
+    declined9: Optional[str] = None
+    try:
+        r9(ctx, prog, m, procs_with_delta)
+    except AnalysisError as e_:
+        declined9 = str(e_)
+
     # ---- R7 lock discipline of the guard reads (last: its declines must not hide verdicts of the other rules) ------
-    r7(ctx, prog, writes)
+    try:
+        r7(ctx, prog, writes)
+    except AnalysisError as e_:
+        if declined9 is not None:
+            raise AnalysisError(f'{declined9} | {e_}')
+        raise
+    ctx.need(declined9 is None, declined9 or '')
